@@ -3,7 +3,9 @@ use verif_core::*;
 pub mod c15;
 pub mod c17;
 pub mod c18;
+pub mod c18_hist;
 pub mod c18_mac;
+pub mod hist;
 
 pub fn table() -> Vec<Prop> {
     vec![
